@@ -380,6 +380,18 @@ def fexpr(node, ctx: Ctx, poisoned: set) -> str:
             return fexpr(node.args[0], ctx, poisoned)
         if isinstance(f, ast.Attribute) and isinstance(f.value, ast.Name) and f.value.id == 'torch' and f.attr in _TRANSC and len(node.args) == 1:
             return f'({_TRANSC[f.attr]} {fexpr(node.args[0], ctx, poisoned)})'
+        # torch primitives that are defined through exp / log (their defining expressions are trusted, like `//` = Int.fdiv)
+        fname = ast.unparse(f)
+        if len(node.args) == 1 and not node.keywords:
+            z = fexpr(node.args[0], ctx, poisoned)
+            if fname in ('F.sigmoid', 'torch.sigmoid', 'torch.nn.functional.sigmoid'):
+                return f'((1 : K) / ((1 : K) + (exp (-{z}))))'
+            if fname in ('F.logsigmoid', 'torch.nn.functional.logsigmoid'):
+                return f'(-(log ((1 : K) + (exp (-{z})))))'
+            if fname == 'torch.logit':
+                return f'(log ({z} / ((1 : K) - {z})))'
+            if fname == 'torch.expm1':
+                return f'((exp {z}) - (1 : K))'
         raise Untranslatable(f'call {ast.unparse(node)[:50]}')
     raise Untranslatable(f'expression {type(node).__name__}')
 
